@@ -188,4 +188,31 @@ IterStep(st, c) ==
       [] c.c = "collect_rev" -> [dq |-> <<>>, ok |-> st.ok /\ c.w = Flatten(Reverse(dq))]
       [] OTHER -> [dq |-> dq, ok |-> FALSE]
 IterOK(v, W, calls) == FoldLeft(IterStep, [dq |-> WordList(v, W), ok |-> TRUE], calls).ok
+(* random generation as a function of the consumed stream of 32-bit words (each a 4-byte little-endian tuple) *)
+WordsOf(bs) == [i \in 1..(Len(bs) \div 4) |-> SubSeq(bs, 4 * i - 3, 4 * i)]
+\* the n-bit candidate starting at word k: the next ceil(n/32) words as base-2^32 digits, top word shifted down
+GenBits(ws, k, n) ==
+    LET len == (n + 31) \div 32  rem == n % 32 IN
+    IF k + len - 1 > Len(ws) THEN [ok |-> FALSE, v |-> <<>>, k |-> k]
+    ELSE IF len = 0 THEN [ok |-> TRUE, v |-> <<>>, k |-> k]
+    ELSE LET lower == Norm(Flatten(SubSeq(ws, k, k + len - 2)))
+             top   == Norm(ws[k + len - 1])
+             topv  == IF rem = 0 THEN top ELSE Shr(top, 32 - rem)
+         IN [ok |-> TRUE, v |-> Add(lower, Shl(topv, 32 * (len - 1))), k |-> k + len]
+\* bounded sampling: the first candidate of BitLen(b) bits that is below b
+RECURSIVE GenBelow(_, _, _)
+GenBelow(ws, k, b) ==
+    LET c == GenBits(ws, k, BitLen(b)) IN
+    IF ~c.ok THEN c ELSE IF Cmp(c.v, b) < 0 THEN c ELSE GenBelow(ws, c.k, b)
+WordBool(w) == w[4] >= 128
+\* signed: magnitude candidate, then one word whose top bit is the sign; a zero magnitude is retried when that bit is set
+RECURSIVE GenBigInt(_, _, _)
+GenBigInt(ws, k, n) ==
+    LET c == GenBits(ws, k, n) IN
+    IF ~c.ok \/ c.k > Len(ws) THEN [ok |-> FALSE, v |-> ZZero, k |-> k]
+    ELSE LET b == WordBool(ws[c.k]) IN
+         IF c.v = <<>> THEN (IF b THEN GenBigInt(ws, c.k + 1, n) ELSE [ok |-> TRUE, v |-> ZZero, k |-> c.k + 1])
+         ELSE [ok |-> TRUE, v |-> Z(IF b THEN 1 ELSE -1, c.v), k |-> c.k + 1]
+RangeWidth(lo, hi, incl) == IF incl THEN ZAddInt(ZSub(hi, lo), 1) ELSE ZSub(hi, lo)
+
 =============================================================================
